@@ -670,6 +670,8 @@ class Gen(object):
         for stmt, var, ty in cands:
             if ty.rstrip('*') not in self.s.classes and ty not in ('int', 'str', 'bool'):
                 continue
+            if stmt[0] == 'create' and self.p.get('prelude_no_create'):
+                continue
             if (full or self.ch.chance(self.p.get('prelude', 0.4))) and not any(var in sc for sc in self.scopes):
                 self.declare(var, ty)
                 out.append(stmt)
